@@ -203,6 +203,9 @@ func (d *queueDrv) Step(line string) string {
 			}
 		}
 		return "ok"
+	case "wait":
+		time.Sleep(1100 * time.Millisecond)
+		return "ok"
 	case "init":
 		err := d.q.Init(&queue.InitOptions{CleanStart: f[1] == "1", Version: packets.Version5,
 			ReadBytesLimit: uint32(atoi(f[2])), Notifier: d.n})
